@@ -80,7 +80,7 @@ def argname(ctx, P, funcs=None, rule="SCHEMA-ARGNAME", tus=("tables", "trees")):
     for key in tus:
         tu = P.tus[key]
         for fn in tu.funcs.values():
-            if funcs is not None and fn.name not in funcs:
+            if funcs is not None and not (fn.name in funcs if not callable(funcs) else funcs(fn.name)):
                 continue
             for c in walk(fn.body):
                 if c.k != "CallExpr":
@@ -142,7 +142,7 @@ ROW_T = {"tsk_edge_t": "edge", "tsk_node_t": "node", "tsk_site_t": "site", "tsk_
          "tsk_provenance_t": "provenance"}
 
 
-def row_forwarding(ctx, P, rule="SCHEMA-ROWFWD", tus=("tables", "trees")):
+def row_forwarding(ctx, P, rule="SCHEMA-ROWFWD", tus=("tables", "trees"), funcs=None):
     """When a row struct is re-emitted through add_row, its metadata (and ragged payloads) travel with it."""
     ctx.rule(rule, "an add_row call that re-emits a row obtained from get_row (>=1 argument is a field of a tsk_<T>_t "
                    "variable of the same table) forwards that row's metadata/metadata_length and every ragged payload "
@@ -151,6 +151,8 @@ def row_forwarding(ctx, P, rule="SCHEMA-ROWFWD", tus=("tables", "trees")):
     for key in tus:
         tu = P.tus[key]
         for fn in tu.funcs.values():
+            if funcs is not None and not (fn.name in funcs if not callable(funcs) else funcs(fn.name)):
+                continue
             for c in walk(fn.body):
                 if c.k != "CallExpr":
                     continue
@@ -497,7 +499,7 @@ def append_columns(ctx, P, S, rule="SCHEMA-APPEND"):
         ctx.ob(rule, "%s|set=clear+append" % t, ok, FS.loc(fs.node), "set_columns calls clear then append_columns")
 
 
-def all_families(ctx, P, S=None):
+def all_families(ctx, P, S=None, funcs=None):
     S = S or load_schemas(P)
     ctx.need(len(S) == 8, "eight table structs in tables.h (found %d)" % len(S))
     equals(ctx, P, S)
@@ -509,8 +511,8 @@ def all_families(ctx, P, S=None):
     truncate(ctx, P, S)
     append_columns(ctx, P, S)
     dump_load(ctx, P, S)
-    argname(ctx, P)
-    row_forwarding(ctx, P)
+    argname(ctx, P, tus=("tables",), funcs=funcs)
+    row_forwarding(ctx, P, tus=("tables",), funcs=funcs)
     return S
 
 
@@ -647,7 +649,7 @@ DOMAIN_OK = {
 _TBL = r"(individuals|nodes|edges|migrations|sites|mutations|populations|provenances)"
 
 
-def column_domain(ctx, P, rule="COLUMN-DOMAIN", tus=None, floor=55):
+def column_domain(ctx, P, rule="COLUMN-DOMAIN", tus=None, floor=55, funcs=None):
     """A loop counter ranging over the rows of table T of collection X indexes only columns of X.T directly."""
     from sa.cfront import LIB_TUS
     from sa.expr import local_aliases
@@ -658,6 +660,8 @@ def column_domain(ctx, P, rule="COLUMN-DOMAIN", tus=None, floor=55):
     for key in (tus or LIB_TUS):
         tu = P.tus[key]
         for fn in tu.funcs.values():
+            if funcs is not None and not funcs(fn.name):
+                continue
             al = None
             for lp in walk(fn.body):
                 if lp.k != "ForStmt":
@@ -688,5 +692,5 @@ def column_domain(ctx, P, rule="COLUMN-DOMAIN", tus=None, floor=55):
                             why += ": `%s` counts rows of %s.%s, not of %s.%s" % (var, owner or "?", tbl, o2 or "?", t2)
                         n += 1
                         ctx.ob(rule, "%s|%s[%s]|%s" % (fn.name, base, var, bound), ok, tu.loc(x), why)
-    ctx.floor(rule, floor if tus is None else 1)
+    ctx.floor(rule, floor if (tus is None and funcs is None) else 1)
     return n
